@@ -847,16 +847,20 @@ pub fn minimise(def: &CheckDef, v: &VRec, tier: Tier) -> (VRec, bool, usize) {
     while progress && Instant::now() < deadline && rounds < 40 {
         progress = false;
         rounds += 1;
+        let mut found: Option<(AnyCase, Violation)> = None;
         for cand in best.shrink_candidates() {
             if Instant::now() >= deadline {
                 break;
             }
             if let Some(nv) = still_fails(def, &v.scenario, &cand, &v.class, &v.key, tier) {
-                best = cand;
-                best_v = nv;
-                progress = true;
+                found = Some((cand, nv));
                 break;
             }
+        }
+        if let Some((cand, nv)) = found {
+            best = cand;
+            best_v = nv;
+            progress = true;
         }
     }
     let mut out = v.clone();
